@@ -20,6 +20,40 @@ def fn_short(name):
     return '::'.join(parts[-2:]) if len(parts) >= 2 else name
 
 
+def type_head_matches(body, local, adt_name):
+    from engine import strip_refs
+    t = strip_refs(body.lty(local)).split('<', 1)[0]
+    return t == adt_name
+
+
+def refers_to_adt(body, local, adt_name):
+    """local = &(*x) / copy x chains where x has the ADT type."""
+    seen = set()
+    work = [local]
+    while work:
+        l = work.pop()
+        if l in seen:
+            continue
+        seen.add(l)
+        if type_head_matches(body, l, adt_name):
+            return True
+    return False
+
+
+def field_keys(place, adt_name, is_enum):
+    """(variant, field) keys of the fields of `adt_name` read by a place."""
+    out = []
+    cur = None
+    for pe in place[1]:
+        if isinstance(pe, tuple) and pe[0] == 'd':
+            cur = pe[2]
+        elif isinstance(pe, tuple) and pe[0] == 'f':
+            if pe[3] == adt_name:
+                out.append((cur if is_enum else None, pe[2] if pe[2] else str(pe[1])))
+            cur = None
+    return out
+
+
 def ret_ok_some(body, sp):
     return ok_payload_variant(body, sp) == 'Some'
 
@@ -293,3 +327,130 @@ class Ctx:
         self.report.violation(clause, 'R1+R6', inst, k, 'relation is established by %s but: %s' % (
             [fn_short(e.name) for e in ests], ' | '.join(r.problems)[:1200]), f.loc())
         return False
+
+
+    def _fields_read(self, fn, adt_name, is_enum):
+        cache = getattr(self, '_fr_cache', None)
+        if cache is None:
+            cache = self._fr_cache = {}
+        k = (fn.name, adt_name)
+        if k in cache:
+            return cache[k]
+        out = set()
+        for g in fn.family():
+            for b in g.body.blocks:
+                if b.cleanup:
+                    continue
+                for (_, pl, rv) in b.stmts:
+                    for (l, place) in __import__('core').rvalue_reads(rv):
+                        out.update(field_keys(place, adt_name, is_enum))
+                if b.term[0] == 'call':
+                    for a in b.term[1].args:
+                        if a[0] in ('copy', 'move'):
+                            out.update(field_keys(a[1], adt_name, is_enum))
+        cache[k] = out
+        return out
+
+    # ---- R4 field coverage
+    def field_cover(self, clause, adt_pat, fn_or_pat, consumers=(), agg_consumers=(), exempt=None, desc='', variant=None,
+                    key=None, ret_consumer=False):
+        """Every field of the ADT (of `variant`, default: all variants) that is not exempted is read in
+        the fn's body family and the value read flows into an argument of a consumer call / an operand of
+        a consumer aggregate / (ret_consumer) the return value."""
+        exempt = exempt or {}
+        try:
+            adt = self.ws.adt(adt_pat)
+        except AnchorMissing as e:
+            self.report.missing(clause, e)
+            return None
+        f = fn_or_pat if not isinstance(fn_or_pat, str) else self.try_fn(clause, fn_or_pat)
+        if f is None:
+            return None
+        adt_name = adt['n']
+        is_enum = adt['kind'] == 'enum'
+        fields = []
+        for vi, v in enumerate(adt['variants']):
+            if variant is not None and v['n'] != variant:
+                continue
+            for fd in v['fields']:
+                fields.append((v['n'], fd['n']))
+        covered = {}
+        for g in f.family():
+            body = g.body
+            # consumer sinks of this body
+            sink_locals = set()
+            sink_desc = []
+            for c in body.calls():
+                if consumers and any(match_any(list(consumers), n) for n in c.names()):
+                    for a in c.args:
+                        if a[0] in ('copy', 'move'):
+                            sink_locals.add(a[1][0])
+                    sink_desc.append(c)
+            for b in body.blocks:
+                if b.cleanup:
+                    continue
+                for (_, pl, rv) in b.stmts:
+                    if agg_consumers and rv[0] == 'agg' and rv[1] == 'adt' and rv[2] and match_any(list(agg_consumers), rv[2]):
+                        for o in rv[5]:
+                            if o[0] in ('copy', 'move'):
+                                sink_locals.add(o[1][0])
+            if ret_consumer:
+                sink_locals |= body.ret_carriers()
+            if not sink_locals:
+                continue
+            # reads of each field
+            reads = {}
+            for bi, b in enumerate(body.blocks):
+                if b.cleanup:
+                    continue
+                for (_, pl, rv) in b.stmts:
+                    for (l, place) in __import__('core').rvalue_reads(rv):
+                        for fk in field_keys(place, adt_name, is_enum):
+                            reads.setdefault(fk, set()).add(pl[0])
+                t = b.term
+                if t[0] == 'call':
+                    # the object itself handed to a workspace method: the fields that method reads
+                    # count as read here (one level), e.g. self.phi_f_fixed()
+                    for a in t[1].args:
+                        if a[0] in ('copy', 'move') and not [pe for pe in a[1][1] if isinstance(pe, tuple)]:
+                            if type_head_matches(body, a[1][0], adt_name) or refers_to_adt(body, a[1][0], adt_name):
+                                for gname in t[1].names():
+                                    for callee in self.ws.by_name.get(gname, []):
+                                        for fk in self._fields_read(callee, adt_name, is_enum):
+                                            reads.setdefault(fk, set()).add(t[1].dest[0])
+                                            if any(match_any(list(consumers), n) for n in t[1].names()):
+                                                covered[fk] = '%s:%d (object passed to consumer)' % (fn_short(g.name), t[1].line)
+                    for a in t[1].args:
+                        if a[0] in ('copy', 'move'):
+                            for fk in field_keys(a[1], adt_name, is_enum):
+                                reads.setdefault(fk, set()).add(t[1].dest[0])
+                                if any(match_any(list(consumers), n) for n in t[1].names()):
+                                    covered[fk] = '%s:%d (direct argument)' % (fn_short(g.name), t[1].line)
+                elif t[0] == 'sw' and t[1][0] in ('copy', 'move'):
+                    pass
+            for fname, starts in reads.items():
+                if fname in covered:
+                    continue
+                derived = flows_forward(body, starts, True)
+                if derived & sink_locals:
+                    covered[fname] = fn_short(g.name)
+        ok_all = True
+        for (vn, fname0) in fields:
+            fname = (vn, fname0) if is_enum else (None, fname0)
+            inst = '%s.%s%s covered by %s %s' % (fn_short(adt_name), (vn + '.') if is_enum else '', fname0, fn_short(f.name), desc)
+            fq = ('%s.%s' % (vn, fname0)) if is_enum else fname0
+            k = 'cover:%s.%s:%s' % (fn_short(adt_name), fq, fn_short(f.name))
+            if key:
+                k = '%s:%s' % (key, fq)
+            if fname0 in exempt or fq in exempt:
+                self.report.info(clause, '%s.%s exempt in %s: %s' % (fn_short(adt_name), fq, fn_short(f.name), exempt.get(fq, exempt.get(fname0))))
+                continue
+            if fname in covered:
+                self.report.ok(clause, 'R4', inst, 'via %s' % covered[fname], f.loc())
+            else:
+                ok_all = False
+                self.report.violation(clause, 'R4', inst, k, 'field `%s` of %s is not read-and-consumed in %s' % (
+                    fq, adt_name, f.name), f.loc())
+        if not fields:
+            self.report.violation(clause, 'R4', '%s has fields' % adt_name, 'cover:%s:vacuous' % fn_short(adt_name), 'no fields found', f.loc())
+        return ok_all
